@@ -408,9 +408,14 @@ class SessionHandler:
 
 
     @staticmethod
-    def reset() -> None:
+    def _now() -> int:
         diff = datetime.datetime.utcnow() - datetime.datetime(1900, 1, 1, 0, 0, 0)
-        SessionHandler.init = diff.days*24*60*60 + diff.seconds
+        return diff.days*24*60*60 + diff.seconds
+
+
+    @staticmethod
+    def reset() -> None:
+        SessionHandler.init = SessionHandler._now()
         SessionHandler.id = 0
 
 
@@ -424,7 +429,11 @@ class SessionHandler:
                     SessionHandler.id += 1
                     return
 
-            SessionHandler.reset()
+            #: The identity has changed: refresh the high part, but never
+            #: rewind the counter, otherwise Session-Ids already issued in
+            #: this process would be issued again.
+            SessionHandler.init = SessionHandler._now()
+            SessionHandler.id += 1
             return
         
         SessionHandler.id += 1
